@@ -37,6 +37,9 @@ type stEnv struct {
 	bound map[ssa.Value]*stOutcome
 	// State() call results observed at call time (handleState mutates the state)
 	stateAt map[ssa.Value]int64
+	// error-typed phis resolved along the path being explored: which incoming
+	// value each one has (a verdict stored in a variable and acted on later)
+	phis map[*ssa.Phi]ssa.Value
 }
 
 type stOutcome struct {
@@ -145,6 +148,23 @@ func (it *stInterp) evalBool(v ssa.Value, env *stEnv) (val, known bool) {
 		if x.Op == token.NEQ || x.Op == token.EQL {
 			for _, pr := range [][2]ssa.Value{{x.X, x.Y}, {x.Y, x.X}} {
 				if c, ok := pr[1].(*ssa.Const); ok && c.Value == nil {
+					if ph, isPhi := pr[0].(*ssa.Phi); isPhi {
+						if v, tracked := env.phis[ph]; tracked {
+							isNil, decided := false, false
+							switch y := v.(type) {
+							case *ssa.Const:
+								isNil, decided = y.Value == nil, true
+							case *ssa.MakeInterface, *ssa.Call:
+								isNil, decided = false, true
+							}
+							if decided {
+								if x.Op == token.NEQ {
+									return !isNil, true
+								}
+								return isNil, true
+							}
+						}
+					}
 					if o, ok := env.bound[pr[0]]; ok && o != nil {
 						isNil := o.Class == "Accept"
 						if x.Op == token.NEQ {
@@ -178,16 +198,56 @@ func (it *stInterp) run(fn *ssa.Function, env *stEnv, depth int) []stOutcome {
 		pred  *ssa.BasicBlock
 		bkey  string
 		bound map[ssa.Value]*stOutcome
+		phis  map[*ssa.Phi]ssa.Value
 	}
 	visited := map[string]bool{}
+	// enter: the node for block s reached from b, with the error phis of s resolved
+	enter := func(s, b *ssa.BasicBlock, bkey string, bound map[ssa.Value]*stOutcome, phis map[*ssa.Phi]ssa.Value) node {
+		np := phis
+		for _, in := range s.Instrs {
+			ph, ok := in.(*ssa.Phi)
+			if !ok {
+				break
+			}
+			if ph.Type().String() != "error" {
+				continue
+			}
+			for ei, pb := range s.Preds {
+				if pb != b || ei >= len(ph.Edges) {
+					continue
+				}
+				v := ph.Edges[ei]
+				if inner, isPhi := v.(*ssa.Phi); isPhi {
+					if r, tracked := phis[inner]; tracked {
+						v = r
+					}
+				}
+				if len(np) == len(phis) && (len(phis) == 0 || &np == &phis || true) {
+					cp := make(map[*ssa.Phi]ssa.Value, len(phis)+1)
+					for k, vv := range phis {
+						cp[k] = vv
+					}
+					np = cp
+				}
+				np[ph] = v
+			}
+		}
+		return node{s, 0, b, bkey, bound, np}
+	}
 	keyOf := func(n node) string {
 		pi := -1
 		if n.pred != nil {
 			pi = n.pred.Index
 		}
-		return fmt.Sprintf("%d/%d/%d/%s", n.b.Index, n.from, pi, n.bkey)
+		// the phi bindings in a canonical order: a loop that comes round with the same bindings is the same node
+		var pk []string
+		for ph, v := range n.phis {
+			pk = append(pk, ph.Name()+"="+v.Name())
+		}
+		sort.Strings(pk)
+		return fmt.Sprintf("%d/%d/%d/%s/%s", n.b.Index, n.from, pi, n.bkey, strings.Join(pk, ","))
 	}
-	work := []node{{fn.Blocks[0], 0, nil, "", env.bound}}
+	work := []node{{fn.Blocks[0], 0, nil, "", env.bound, nil}}
 	for len(work) > 0 {
 		n := work[len(work)-1]
 		work = work[:len(work)-1]
@@ -216,7 +276,7 @@ func (it *stInterp) run(fn *ssa.Function, env *stEnv, depth int) []stOutcome {
 								nb[kk] = v
 							}
 							nb[x] = &o
-							work = append(work, node{b, i + 1, n.pred, n.bkey + ";" + x.Name() + "=" + o.String(), nb})
+							work = append(work, node{b, i + 1, n.pred, n.bkey + ";" + x.Name() + "=" + o.String(), nb, n.phis})
 						}
 						break scan
 					}
@@ -234,6 +294,26 @@ func (it *stInterp) run(fn *ssa.Function, env *stEnv, depth int) []stOutcome {
 						}
 					}
 				}
+				if ph, ok := v.(*ssa.Phi); ok {
+					if r, tracked := n.phis[ph]; tracked {
+						v = r
+					}
+				}
+				// what rejectBlock / rejectBlockFrom hand back is the reason they were given
+				// (or a connection error of the decoder's): judged by the reason
+				if c, ok := v.(*ssa.Call); ok {
+					if nm := it.p.calleeName(c.Common()); nm == "(*serverConn).rejectBlock" || nm == "(*serverConn).rejectBlockFrom" {
+						reason := c.Call.Args[len(c.Call.Args)-1]
+						if ph, isPhi := reason.(*ssa.Phi); isPhi {
+							if r, tracked := n.phis[ph]; tracked {
+								reason = r
+							}
+						}
+						if _, isCall := stripIface(reason).(*ssa.Call); isCall {
+							v = reason
+						}
+					}
+				}
 				for _, o := range it.classify(v, n.bound) {
 					seenOut[o.String()] = o
 				}
@@ -241,16 +321,17 @@ func (it *stInterp) run(fn *ssa.Function, env *stEnv, depth int) []stOutcome {
 			case *ssa.If:
 				e2 := *env
 				e2.bound = n.bound
+				e2.phis = n.phis
 				val, known := it.evalBool(x.Cond, &e2)
 				for si, s := range b.Succs {
 					if known && ((si == 0) != val) {
 						continue
 					}
-					work = append(work, node{s, 0, b, n.bkey, n.bound})
+					work = append(work, enter(s, b, n.bkey, n.bound, n.phis))
 				}
 				break scan
 			case *ssa.Jump:
-				work = append(work, node{b.Succs[0], 0, b, n.bkey, n.bound})
+				work = append(work, enter(b.Succs[0], b, n.bkey, n.bound, n.phis))
 				break scan
 			case *ssa.Panic:
 				break scan
@@ -588,4 +669,11 @@ func (p *Prog) idleOutcomeClasses(kind int64) (map[string]bool, bool) {
 		}
 	}
 	return out, true
+}
+
+func stripIface(v ssa.Value) ssa.Value {
+	if m, ok := v.(*ssa.MakeInterface); ok {
+		return m.X
+	}
+	return v
 }
